@@ -3,7 +3,7 @@ import ast
 
 from ..report import AnalysisError, borrow, norm
 from ..srcmodel import own_nodes, own_statements
-from ..terms import Resolver, alternatives, show, walk
+from ..terms import Resolver, alternatives, canon, show, walk
 
 PROP = "C18"
 EXHAUSTIVE = False
@@ -140,14 +140,72 @@ def r2_fraction(rep, ctx):
         bad = [u for u in uses if not getattr(u, "ok", False) and u.need in ("x", "numerator", "denominator", "inv")]
         rep.check(not bad, "C18.R2", "Fraction.%s:lifts-numbers" % name, "a plain number operand is lifted to a Fraction before its parts are read",
                   "Fraction.%s reads `other.%s` while other may still be a plain number (%s)" % (name, bad[0].need if bad else "", show_state(bad[0].state) if bad else ""), fn=fn)
-    # == and < through one helper
-    eqf, eqb = body_txt("__eq__")
-    ltf, ltb = body_txt("__lt__")
-    ok = eqb and eqb[-1] == "returnself.__old_cmp__(other)==0" and ltb == ["returnself.__old_cmp__(other)==-1"]
-    rep.check(bool(ok), "C18.R2", "Fraction:eq-lt-share-helper", "== is helper(other) == 0 and < is helper(other) == -1", "Fraction.__eq__/__lt__ are %s / %s" % (eqb, ltb), fn=ltf)
-    cmpf, cb = body_txt("__old_cmp__")
-    ok = any(s == "t=self.numerator*other.denominator-other.numerator*self.denominator" for s in cb) and "ift<0:\n    return-1" .replace(" ", "") in [s.replace(" ", "") for s in cb] and any(s.replace(" ", "").startswith("ift>0:") and "return1" in s for s in cb) and cb[-1] == "return0"
-    rep.check(ok, "C18.R2", "Fraction.__old_cmp__", "the helper returns the sign of numerator*other.denominator - other.numerator*denominator", "Fraction.__old_cmp__ does not compute the sign of the cross-multiplication (self first)", fn=cmpf)
+    # == and < through one helper (term-based: guards may be merged into the returned expression)
+    from ..cfg import CFG
+    from ..facts import norm_fact
+    eqf, ltf, cmpf = ci.methods.get("__eq__"), ci.methods.get("__lt__"), ci.methods.get("__old_cmp__")
+    if eqf is None or ltf is None or cmpf is None:
+        raise AnalysisError("Fraction: __eq__ / __lt__ / __old_cmp__ not found")
+
+    def decides_by_helper(fn, const):
+        res_ = Resolver(m, fn)
+        found = False
+        for r in own_nodes(fn.node):
+            if isinstance(r, ast.Return) and r.value is not None:
+                if isinstance(r.value, ast.Constant) and r.value.value is False:
+                    continue  # a type guard answering False
+                t = res_.term(r.value)
+                hit = [x for x in walk(t) if x[0] == "op" and x[1] == "cmp:Eq" and len(x[2]) == 2 and x[2][0][0] == "call" and x[2][0][1] == ("field", "__old_cmp__")
+                       and x[2][0][2] == (("param", 1, fn.params[1]),) and x[2][1] in (("const", const), ("op", "USub", (("const", -const),)))]
+                if not hit:
+                    return False
+                found = True
+        return found
+
+    rep.check(decides_by_helper(eqf, 0) and decides_by_helper(ltf, -1), "C18.R2", "Fraction:eq-lt-share-helper", "== is helper(other) == 0 and < is helper(other) == -1",
+              "Fraction.__eq__ / __lt__ do not both decide through __old_cmp__(other) == 0 / == -1", fn=ltf)
+    cres = Resolver(m, cmpf)
+    ccfg = CFG(cmpf.node)
+    tdefs = [st for st in own_statements(cmpf.node) if isinstance(st, ast.Assign) and isinstance(st.targets[0], ast.Name) and isinstance(st.value, ast.BinOp) and isinstance(st.value.op, ast.Sub)]
+    cross_ok = False
+    tvar = None
+    for st in tdefs:
+        tt = cres.term(st.value)
+        def mult(x, a, b):
+            return x[0] == "op" and x[1] == "Mult" and len(x[2]) == 2 and a(x[2][0]) and b(x[2][1])
+        selfnum = lambda x: x in (("field", "numerator"), ("call", ("field", "get_numerator"), (), ()))
+        selfden = lambda x: x in (("field", "denominator"), ("call", ("field", "get_denominator"), (), ()))
+        othnum = lambda x: all(a[0] == "attr" and a[2] == "numerator" for a in alternatives(x))
+        othden = lambda x: all(a[0] == "attr" and a[2] == "denominator" for a in alternatives(x))
+        if tt[0] == "op" and tt[1] == "Sub" and mult(tt[2][0], selfnum, othden) and mult(tt[2][1], othnum, selfden):
+            cross_ok = True
+            tvar = st.targets[0].id
+    sign_ok = False
+    if tvar:
+        got = {}
+        for st in own_statements(cmpf.node):
+            c_ = None
+            if isinstance(st, ast.Return) and isinstance(st.value, (ast.Constant, ast.UnaryOp)):
+                try:
+                    c_ = ast.literal_eval(st.value)
+                except Exception:
+                    c_ = None
+            elif isinstance(st, ast.Assign) and isinstance(st.value, (ast.Constant, ast.UnaryOp)) and isinstance(st.targets[0], ast.Name):
+                try:
+                    c_ = ast.literal_eval(st.value)
+                except Exception:
+                    c_ = None
+            if c_ in (-1, 0, 1):
+                fs = set()
+                for e, v in ccfg.facts_at(ccfg.node_of(st)):
+                    k, l_, r_, pos = norm_fact(e, v)
+                    if isinstance(l_, ast.Name) and l_.id == tvar and isinstance(r_, ast.Constant) and r_.value == 0 and pos:
+                        fs.add(k)
+                got.setdefault(c_, []).append(fs)
+        sign_ok = (any("lt" in f for f in got.get(-1, [])) and any("gt" in f for f in got.get(1, []))
+                   and any({"ge", "le"} <= f for f in got.get(0, [])))
+    rep.check(cross_ok and sign_ok, "C18.R2", "Fraction.__old_cmp__", "the helper returns the sign of numerator*other.denominator - other.numerator*denominator",
+              "Fraction.__old_cmp__ does not compute the sign of the cross-multiplication (self first): cross term %s, sign mapping %s" % (cross_ok, sign_ok), fn=cmpf)
     deco = any("total_ordering" in x for x in ci.decorators)
     others = [d for d in ("__le__", "__gt__", "__ge__") if d in ci.methods]
     rep.check(deco and not others, "C18.R2", "Fraction:total-ordering", "the remaining order operators derive from the shared helper through total_ordering", "Fraction is %s" % ("not @total_ordering" if not deco else "defining %s separately" % others), fn=ltf)
@@ -163,9 +221,9 @@ def _norm_lt(model, fn):
         if isinstance(st, ast.If):
             raises = sorted({ast.unparse(r.exc.func) for r in ast.walk(st) if isinstance(r, ast.Raise) and isinstance(r.exc, ast.Call)})
             if raises:
-                guards.append((show(res.term(st.test), 300), tuple(raises)))
+                guards.append((show(canon(model, res.term(st.test)), 300), tuple(raises)))
         elif isinstance(st, ast.Return) and st.value is not None:
-            rets.append(show(res.term(st.value), 300))
+            rets.append(show(canon(model, res.term(st.value)), 300))
     return sorted(guards), sorted(rets)
 
 
@@ -188,8 +246,8 @@ def r3_siblings(rep, ctx):
     cfv = m.method("FractionScalar", "ConvertFractionValue")
     for r in own_nodes(g.node):
         if isinstance(r, ast.Return) and isinstance(r.value, ast.Call) and isinstance(r.value.func, ast.Attribute) and r.value.func.attr == "ConvertFractionValue":
-            args = [res.term(a) if a is not None else None for a in ordered_args(r.value, cfv)]
-            ok = args == [("field", "_value"), ("field", "_quantity"), ("field", "unit"), ("param", 1, "unit")]
+            args = [canon(m, res.term(a)) if a is not None else None for a in ordered_args(r.value, cfv)]
+            ok = args == [("field", "_value"), ("field", "_quantity"), ("call", ("field", "GetUnit"), (), ()), ("param", 1, "unit")]
     rep.check(ok, "C18.R3", "FractionScalar.GetAbstractValue", "the stored FractionValue is converted from the own unit to the requested unit under the own quantity", "FractionScalar.GetAbstractValue passes other roles to ConvertFractionValue", fn=g)
     # the registered FractionValue conversion goes through the same routine
     reg = m.funcs.get(m.method("FractionScalar", "RegisterFractionScalarConversion").qual + ".ConvertFractionScalar")
@@ -208,7 +266,7 @@ def r4_parts(rep, ctx):
     convs = [c for c in own_nodes(fn.node) if isinstance(c, ast.Call) and isinstance(c.func, ast.Attribute) and c.func.attr in ("ConvertScalarValue", "Convert")]
     parts = []
     for c in convs:
-        v = ast.unparse(c.args[0]) if c.args else ""
+        v = show(res.term(c.args[0]), 200) if c.args else ""
         to = ast.unparse(c.args[1]) if len(c.args) > 1 else ""
         parts.append((v, to))
         rep.check(to == "to_unit", "C18.R4", "ConvertFractionValue:%s" % norm(v), "the part is converted to the requested unit", "a part is converted to %s" % to, node=c, fn=fn)
